@@ -147,10 +147,6 @@ def construct(name, env):
     return construct_term(TERMS[name], env)
 
 
-def unique_cached(t):
-    return t[0] not in ("struct", "enum")
-
-
 # ---- spellings --------------------------------------------------------------------------------
 # PLAIN[name] = type strings accepted by BOTH parsers (pycparser + cparser.py; parse_c_type.c); index 0 is the
 # canonical one.  INLINE_ONLY: only the in-line parser evaluates constant expressions.  TYPEDEF: need the cdef below
